@@ -77,7 +77,7 @@ Section Run.
   Variable sha : list (string * string).
   Variable ops : list op.
   Variable spw0 : string.                  (* admin password of the slave when it was added to the hub *)
-  Variable sops : list (option string).    (* admin_password of every forwarded PATCH /device that succeeded (None: absent) *)
+  Variable sops : list sop.                (* forwarded PATCH /device requests that succeeded and renames, in order *)
 
   Definition slave_key (k : nat) : string := hub_slave_hash (sha_of sha) spw0 (firstn k sops).
   Definition slave_pw (k : nat) : string := slave_password spw0 (firstn k sops).
